@@ -56,6 +56,12 @@ class NodeVisitor(visitor.PartialVisitor[ast.AST]):
         if body is not None:
             for child in body:
                 yield child
+        if isinstance(node, (ast.Try, getattr(ast, 'TryStar', ast.Try), ast.For, ast.AsyncFor, ast.While)):
+            # These clauses run whenever the body completes: the 'else' and 'finally' clauses
+            # of a 'try', the 'else' clause of a loop. (The 'else' branch of an 'if' and the
+            # exception handlers are alternatives to the body and stay ignored.)
+            yield from node.orelse
+            yield from getattr(node, 'finalbody', ())
 
 class NodeVisitorExt(visitor.VisitorExt[ast.AST]):
     ...
